@@ -56,7 +56,8 @@ PROBES = {"same_size_edit": 1, "racy_same_granule_edit": 1,
           "kind_replacement": 1, "untracked_dir_collapsed": 1,
           "directory_became_file": 1, "type_change_same_bytes": 1,
           "reset_hard": 1, "add_all": 1, "reset_mixed": 1,
-          "staged_new_became_directory": 1}
+          "staged_new_became_directory": 1,
+          "directory_became_symlink": 1}
 MIN_BUDGET = 200
 
 NAMES = [b"a.txt", b"b", b"dir/c.txt", b"dir/sub/d", b"x y.txt",
@@ -118,7 +119,8 @@ def gen_plan(seed, tier):
              "untracked", "to_link", "to_file", "to_dir", "stage", "stage",
              "unstage", "rm_cached", "commit", "switch", "switch", "touch",
              "rewrite_same", "dir_to_file", "to_link_same", "to_file_same",
-             "reset_hard", "reset_hard", "add_all", "reset_mixed"]),
+             "reset_hard", "reset_hard", "add_all", "reset_mixed",
+             "dir_to_link"]),
             "i": rng.randrange(100), "c": rng.randrange(10**6)})
     mode = rng.choice(["normal", "normal", "skewed", "racy", "racy"])
     gran = rng.choice([1, 1000, 4 * 10**6, 10**9, 2 * 10**9])
@@ -283,6 +285,12 @@ def run_plan(plan):
             r.object_store.add_object(c)
             return c.id, tid, files
 
+        def beyond_link(p):
+            """Does the model have a symlink where p has a directory?"""
+            parts = p.split(b"/")
+            return any(m.wd.get(b"/".join(parts[:i]), (None,))[0] == "link"
+                       for i in range(1, len(parts)))
+
         def status_check(label, r):
             exp_staged, exp_unstaged, exp_untracked = m.expected()
             try:
@@ -301,7 +309,10 @@ def run_plan(plan):
             cfg = plan["clock_mode"]
             for k in ("add", "delete", "modify"):
                 if got_staged.get(k, set()) != exp_staged[k]:
-                    viol(f"staged-wrong/{k}",
+                    diff = got_staged.get(k, set()) ^ exp_staged[k]
+                    tagk = "/beyond-symlinked-directory" if diff and all(
+                        beyond_link(q) for q in diff) else ""
+                    viol(f"staged-wrong/{k}{tagk}",
                          f"{label}: got {sorted(got_staged.get(k, set()))} "
                          f"want {sorted(exp_staged[k])}")
             missed = exp_unstaged - got_unstaged
@@ -319,6 +330,10 @@ def run_plan(plan):
                             SIZES.get(cur[1]) else "size-changed"
                     return "mode-changed"
                 why = sorted(reason(p) for p in missed)
+                if all(beyond_link(p) for p in missed):
+                    # the entry's file is looked up *through* the symlink
+                    # that replaced its directory
+                    why = ["beyond-symlinked-directory"]
                 viol(f"status-missed-change/{cfg}/{why[0]}",
                      f"{label}: unstaged change of {sorted(missed)} not "
                      f"reported (granularity {gran} ns); reported "
@@ -562,6 +577,33 @@ def run_plan(plan):
                     write_file(d, b"was a directory %d\n" % ed["c"])
                     m.wd[d] = ("file", b"was a directory %d\n" % ed["c"],
                                False)
+                elif op == "dir_to_link":
+                    # a tracked directory is replaced by a symlink to a
+                    # directory elsewhere that holds the same file names
+                    dirs = sorted({q[:i] for q in present
+                                   for i in range(len(q)) if q[i:i + 1] == b"/"})
+                    d = pick(dirs)
+                    if d is None:
+                        continue
+                    stats["probe:kind_replacement"] = 1
+                    stats["probe:directory_became_symlink"] = 1
+                    twin = os.path.join(root, "twin%d" % ei)
+                    for q in [q for q in m.wd if q.startswith(d + b"/")]:
+                        sub = q[len(d) + 1:]
+                        v = m.wd[q]
+                        tp = os.path.join(os.fsencode(twin), sub)
+                        R.makedirs(os.path.dirname(tp), exist_ok=True)
+                        if v[0] == "file":
+                            fd_ = R.os_open(tp, os.O_WRONLY | os.O_CREAT, 0o644)
+                            R.write(fd_, v[1] if ed["c"] % 2 else
+                                    v[1] + b"!")
+                            R.close(fd_)
+                        del m.wd[q]
+                        m.why[q] = "deleted"
+                    import shutil
+                    shutil.rmtree(fspath(d))
+                    os.symlink(os.fsencode(twin), fspath(d))
+                    m.wd[d] = ("link", os.fsencode(twin))
                 elif op in ("to_link_same", "to_file_same"):
                     # the type changes, the bytes do not
                     if op == "to_link_same":
@@ -668,7 +710,10 @@ def run_plan(plan):
                     try:
                         tid = r.open_index().commit(r.object_store)
                         if tid != m.tree_id_of_index(None):
-                            viol("roundtrip-tree-id/after-add-all",
+                            viol("roundtrip-tree-id/after-add-all" + (
+                                "/beyond-symlinked-directory" if any(
+                                    beyond_link(q) for q in
+                                    set(m.index) | set(m.head)) else ""),
                                  f"{label}: index commits to {tid}")
                     except Exception as e:  # noqa: BLE001
                         viol(f"index-commit-raised/{type(e).__name__}",
